@@ -22,8 +22,8 @@ def dense_matmat(E, Ad, Bd, d):
 @scenario
 def ttm_matvec(E, s):
     d = len(s['N'])
-    A, Ac = tt_input(E, 'A', s['N'], s['RA'], s['dtype'], s['M'])
-    x, xc = tt_input(E, 'x', s['N'], s['Rx'], s['dtype'])
+    A, Ac = tt_input(E, 'A', s['N'], s['RA'], s['dtype'], s['M'], via=s.get('via'))
+    x, xc = tt_input(E, 'x', s['N'], s['Rx'], s['dtype'], via=s.get('via'))
     y = A @ x
     ref = dense_matvec(E, dense(E, Ac), dense(E, xc), d)
     E.true('is_tt', isinstance(y, E.tt.TT) and not y.is_ttm)
@@ -36,8 +36,8 @@ def ttm_matvec(E, s):
 @scenario
 def ttm_vecmat(E, s):
     d = len(s['N'])
-    A, Ac = tt_input(E, 'A', s['N'], s['RA'], s['dtype'], s['M'])
-    x, xc = tt_input(E, 'x', s['M'], s['Rx'], s['dtype'])
+    A, Ac = tt_input(E, 'A', s['N'], s['RA'], s['dtype'], s['M'], via=s.get('via'))
+    x, xc = tt_input(E, 'x', s['M'], s['Rx'], s['dtype'], via=s.get('via'))
     y = x @ A
     ref = dense_vecmat(E, dense(E, xc), dense(E, Ac), d)
     E.true('is_tt', isinstance(y, E.tt.TT) and not y.is_ttm)
@@ -50,8 +50,8 @@ def ttm_vecmat(E, s):
 @scenario
 def ttm_matmat(E, s):
     d = len(s['N'])
-    A, Ac = tt_input(E, 'A', s['K'], s['RA'], s['dtype'], s['M'])
-    B, Bc = tt_input(E, 'B', s['N'], s['RB'], s['dtype'], s['K'])
+    A, Ac = tt_input(E, 'A', s['K'], s['RA'], s['dtype'], s['M'], via=s.get('via'))
+    B, Bc = tt_input(E, 'B', s['N'], s['RB'], s['dtype'], s['K'], via=s.get('via'))
     Y = A @ B
     ref = dense_matmat(E, dense(E, Ac), dense(E, Bc), d)
     E.true('is_ttm', isinstance(Y, E.tt.TT) and Y.is_ttm)
@@ -65,7 +65,7 @@ def ttm_matmat(E, s):
 def ttm_dense_matvec(E, s):
     """A @ dense tensor with 0..3 leading batch dimensions"""
     d = len(s['N'])
-    A, Ac = tt_input(E, 'A', s['N'], s['RA'], s['dtype'], s['M'])
+    A, Ac = tt_input(E, 'A', s['N'], s['RA'], s['dtype'], s['M'], via=s.get('via'))
     B = list(s['batch'])
     x = E.tensor('x', B + list(s['N']), s['dtype'])
     y = A @ x
@@ -79,7 +79,7 @@ def ttm_dense_matvec(E, s):
 @scenario
 def ttm_transpose(E, s):
     d = len(s['N'])
-    A, Ac = tt_input(E, 'A', s['N'], s['RA'], s['dtype'], s['M'])
+    A, Ac = tt_input(E, 'A', s['N'], s['RA'], s['dtype'], s['M'], via=s.get('via'))
     At = A.t()
     Ad = dense(E, Ac)
     ref = E.tn.permute(Ad, list(range(d, 2 * d)) + list(range(d)))
@@ -92,8 +92,8 @@ def ttm_transpose(E, s):
 
 @scenario
 def ttm_binop(E, s):
-    A, Ac = tt_input(E, 'A', s['N'], s['RA'], s['dtype'], s['M'])
-    B, Bc = tt_input(E, 'B', s['N'], s['RB'], s['dtype'], s['M'])
+    A, Ac = tt_input(E, 'A', s['N'], s['RA'], s['dtype'], s['M'], via=s.get('via'))
+    B, Bc = tt_input(E, 'B', s['N'], s['RB'], s['dtype'], s['M'], via=s.get('via'))
     Ad, Bd = dense(E, Ac), dense(E, Bc)
     op = s['op']
     if op == 'add':
@@ -117,7 +117,7 @@ def ttm_binop(E, s):
 
 @scenario
 def ttm_scalar(E, s):
-    A, Ac = tt_input(E, 'A', s['N'], s['RA'], s['dtype'], s['M'])
+    A, Ac = tt_input(E, 'A', s['N'], s['RA'], s['dtype'], s['M'], via=s.get('via'))
     Ad = dense(E, Ac)
     op = s['op']
     if op == 'neg':
